@@ -39,8 +39,10 @@ class Cls:
         model_type: bool = False,
         invariants: Sequence[Tuple[str, str]] = (),
         doc: str = "",
+        extra_body: str = "",
     ) -> None:
         self.name = name
+        self.extra_body = extra_body  #: verbatim methods, indented by 4 spaces
         self.props = list(props)  #: own properties (name, annotation)
         self.bases = list(bases)
         self.abstract = abstract
@@ -198,6 +200,9 @@ def render(spec: Spec) -> str:
         if not body_lines:
             body_lines.append("        pass")
         out.extend(body_lines)
+        if cls.extra_body:
+            out.append("")
+            out.append(cls.extra_body.rstrip("\n"))
         out.append("\n")
     if spec.verbatim_after:
         out.append(spec.verbatim_after.rstrip("\n") + "\n\n")
@@ -514,6 +519,11 @@ class RefEnv:
 _COUNTER = itertools.count()
 
 
+def py_class_name(name: str) -> str:
+    """The documented convention of the Python SDK: ``Leaf_node`` -> ``LeafNode``."""
+    return "".join(part[:1].upper() + part[1:] for part in name.split("_"))
+
+
 class PythonSdk:
     """An imported generated Python SDK (removed from ``sys.modules`` by ``close``)."""
 
@@ -542,16 +552,24 @@ class PythonSdk:
             # The literal is found by its *value*: how literal names are spelled in the
             # SDK is the generator's business (C21), the values are the meta-model's.
             declared = dict(spec.enums[value[1]])[value[2]]
-            members = [m for m in getattr(self.types, value[1]) if m.value == declared]
+            members = [m for m in getattr(self.types, py_class_name(value[1])) if m.value == declared]
             assert len(members) == 1, f"enum literal {value} not found by value"
             return members[0]
         if isinstance(value, list):
             return [self.build(spec, item) for item in value]
         if isinstance(value, dict):
-            cls = getattr(self.types, value["__class__"])
+            cls = getattr(self.types, py_class_name(value["__class__"]))
             kwargs = {k: self.build(spec, v) for k, v in value.items() if k != "__class__"}
             return cls(**kwargs)
         return value
+
+    @staticmethod
+    def spec_name(spec: Spec, obj: Any) -> str:
+        """The meta-model name of the class of an SDK instance."""
+        for cls in spec.classes:
+            if py_class_name(cls.name) == type(obj).__name__:
+                return cls.name
+        return type(obj).__name__
 
     # -- SDK object -> reference value (by the description, not by the SDK's reflection) --
     def unbuild(self, spec: Spec, obj: Any) -> Any:
@@ -560,11 +578,14 @@ class PythonSdk:
         if isinstance(obj, (bytes, bytearray)):
             return bytes(obj)
         if isinstance(obj, enum.Enum):
-            names = [n for n, v in spec.enums[type(obj).__name__] if v == obj.value]
-            return ("enum", type(obj).__name__, names[0] if names else f"<{obj.name}>")
+            enum_name = [e for e in spec.enums if py_class_name(e) == type(obj).__name__]
+            if not enum_name:
+                return ("enum", type(obj).__name__, f"<{obj.name}>")
+            names = [n for n, v in spec.enums[enum_name[0]] if v == obj.value]
+            return ("enum", enum_name[0], names[0] if names else f"<{obj.name}>")
         if isinstance(obj, list):
             return [self.unbuild(spec, item) for item in obj]
-        name = type(obj).__name__
+        name = self.spec_name(spec, obj)
         result = {"__class__": name}  # type: Dict[str, Any]
         for prop_name, _ in spec.all_props(name):
             result[prop_name] = self.unbuild(spec, getattr(obj, prop_name))
@@ -572,7 +593,12 @@ class PythonSdk:
 
 
 def generate(
-    text: str, target: str, base: pathlib.Path, root_class: str, package: Optional[str] = None
+    text: str,
+    target: str,
+    base: pathlib.Path,
+    root_class: str,
+    package: Optional[str] = None,
+    extra_snippets: Optional[Dict[str, str]] = None,
 ) -> Tuple[int, str, str, pathlib.Path]:
     """Run ``main.execute`` for ``target``; returns (rc, stdout, stderr, output dir)."""
     base.mkdir(parents=True, exist_ok=True)
@@ -584,6 +610,10 @@ def generate(
     harness.synth_snippets(target, snippets, root_class)
     if target == "python" and package is not None:
         (snippets / "qualified_module_name.txt").write_text(package, encoding="utf-8")
+    for key, content in (extra_snippets or {}).items():
+        path = snippets / key
+        path.parent.mkdir(parents=True, exist_ok=True)
+        path.write_text(content, encoding="utf-8")
     out = base / f"out-{target}"
     if out.exists():
         shutil.rmtree(out)
@@ -591,10 +621,15 @@ def generate(
     return rc, stdout, stderr, out
 
 
-def python_sdk(text: str, base: pathlib.Path, root_class: str) -> Tuple[Optional[PythonSdk], str]:
+def python_sdk(
+    text: str,
+    base: pathlib.Path,
+    root_class: str,
+    extra_snippets: Optional[Dict[str, str]] = None,
+) -> Tuple[Optional[PythonSdk], str]:
     """Generate and import the Python SDK of the model; (None, stderr) if rejected."""
     package = f"vsdk{next(_COUNTER)}_{abs(hash(text)) % 100000}"
-    rc, _, stderr, out = generate(text, "python", base, root_class, package)
+    rc, _, stderr, out = generate(text, "python", base, root_class, package, extra_snippets)
     if rc != 0:
         return None, stderr
     (out / package / "__init__.py").write_text("", encoding="utf-8")
